@@ -107,6 +107,9 @@ pub fn position_programs() -> Vec<String> {
         "local o = {}\nfunction o:m() return @ end\nreturn o:m()",
         "local o = {}\nfunction o.f() return @ end\nreturn o.f()",
         "return EI(t):f(@)",
+        "return EI(t):f<<typeof(@)>>(1)",
+        "return EI<<typeof(@), number>>(1)",
+        "EI(t):f<<{ typeof(@) }>> \"s\"\nreturn 1",
         "return EI{@}",
         "const c = @\nreturn c",
         "for i = 1, 2 do if i == 1 then continue end E1(@) end\nreturn 1",
@@ -116,6 +119,26 @@ pub fn position_programs() -> Vec<String> {
         for p in positions {
             out.push(format!("{}{}\n", u::LPRELUDE, p.replace('@', c)));
         }
+    }
+    // a lowered statement that ends with a parenthese the generator adds, before a statement that starts with one
+    for s in [
+        "local v = if x then 1 elseif t.z then 2 else 3\n(EI)(v)\nreturn v",
+        "local v = if x then 1 elseif t.z then 2 else 3\n(EI)(t).k = v\nreturn t.k",
+        "t.k = if x then nil else if t.z then 2 else 3\n(EI)(t.k)\nreturn t.k",
+        "local a = 5\na -= x - 1\n(EI)(a)\nreturn a",
+        "local a = 5\na /= x * 2\n(EI)(a)\nreturn a",
+        "local a = 8\na //= x + 1\n(EI)(a)\nreturn a",
+        "local a = 8\na = -if x then 1 else 2\n(EI)(a)\nreturn a",
+        "repeat local z = 1 until if x then t.z else if t.z then 2 else 3\n(EI)(1)\nreturn 1",
+        "local s = `{x}`\n(EI)(s)\nreturn s",
+        // a type instantiation written over several lines
+        "return EI<<\n  number\n>>(1)",
+        "return EI(t):f<<\n  number,\n  string\n>>(1)",
+        "EI<<number\n>>(1)\nreturn 1",
+        "local v = (1 :: \n number)\nreturn v",
+        "local function f<T>(\n  a: T\n): T\n  return a\nend\nreturn f<<\n  number>>(1)",
+    ] {
+        out.push(format!("{}{}\n", u::LPRELUDE, s));
     }
     // statements as constructs
     for s in [
@@ -198,6 +221,7 @@ pub fn nested_position_programs() -> Vec<String> {
         "for i = 1, @ do break end",
         "for k in EI(next), {}, @ do end",
         "local v: typeof(@) = 1\nreturn v",
+        "return EI(t):f<<typeof(@)>>(1)",
         "t[@] += 1\nreturn 1",
         "return `{@}`",
         "local o = {}\nfunction o:m() return @ end\nreturn o:m()",
